@@ -68,6 +68,7 @@ Definition run_cors_one (O : oracles) (cfg : cors_cfg) (t : table) (req : reques
       verdict "c09_actual_request_continues"
         (implb (al && negb pre) (any && Bool.eqb invoked routed_ok
                                  && Nat.eqb (List.length (impl_hvalues H_ACAllowOrigin acl)) 1));
+      verdict "c19_cors_history_independent" (sx_bool (sx_nth 4 impl));
       verdict "c09_computed_methods_are_routable"
         (implb (al && pre && any && match c_methods cfg with [] => true | _ => false end)
                (negb (Z.eqb probe 404) && negb (Z.eqb probe 405))) ],
@@ -430,6 +431,10 @@ Definition run_disp (c impl : sexp) : sexp :=
         let h := fst (fst x) in let io := snd x in
         encoding_labelled (sx_request (sx_nth 1 h)) (sx_str (sx_nth 2 h))
                           (impl_hvalues H_ContentEncoding (sx_nth 2 io)) (sx_bool (sx_nth 4 io))) per in
+  let v_c07_conc := forallb (fun x =>
+        let h := fst x in let io := snd x in
+        encoding_labelled (sx_request (sx_nth 1 h)) (sx_str (sx_nth 2 h))
+                          (impl_hvalues H_ContentEncoding (sx_nth 2 io)) (sx_bool (sx_nth 4 io))) (combine hist i_conc) in
   let v_c10_noescape := forallb (fun io => implb (d_recover cfg) (Nat.eqb (List.length (sx_list (sx_nth 0 io))) 0)) i_seq in
   let v_c10_once := forallb (fun io => implb (d_recover cfg) (Z.leb (sx_int (sx_nth 6 io)) 1)) i_seq in
   let v_c10_ledger := Z.eqb (sx_int (sx_nth 0 led)) (sx_int (sx_nth 1 led))
@@ -457,6 +462,7 @@ Definition run_disp (c impl : sexp) : sexp :=
               verdict "c06_concurrent_same_as_alone" v_c19_conc;
               verdict "c07_encoding_enabled_and_wanted" v_c07;
               verdict "c07_labelled_and_decodes" v_c07_label;
+              verdict "c07_concurrent_responses_decode" v_c07_conc;
               verdict "c10_panic_does_not_escape" v_c10_noescape;
               verdict "c10_recover_handler_at_most_once" v_c10_once;
               verdict "c10_compressors_released_once" v_c10_ledger;
